@@ -109,7 +109,7 @@ fn seq_spec(ctx: &Ctx, shards: usize, w: i64) -> SeqSpec {
         world: Default::default(),
         prefix: vec![],
         alphabet,
-        depth: if quick { 4 } else { 6 },
+        depth: if quick { 5 } else { 6 },
         allow: Some(Arc::new(|_h, present, a| match a {
             Op::Upsert { k, value: false, .. } => present.contains(k),
             _ => true,
